@@ -429,6 +429,96 @@ def _classify(sc, node):
     return None
 
 
+def _is_astype_str(n):
+    """<expr>.astype(str)"""
+    return (isinstance(n, ast.Call) and isinstance(n.func, ast.Attribute) and n.func.attr == "astype"
+            and len(n.args) == 1 and not n.keywords and isinstance(n.args[0], ast.Name) and n.args[0].id == "str")
+
+
+def _stores(body, name):
+    """does the statement list store the array `name` as a new column:  d[...] = name   or   xs.append(name)"""
+    for st in body:
+        for n in ast.walk(st):
+            if isinstance(n, ast.Assign) and any(isinstance(tg, ast.Subscript) for tg in n.targets) \
+                    and isinstance(n.value, ast.Name) and n.value.id == name:
+                return True
+            if isinstance(n, ast.Call) and isinstance(n.func, ast.Attribute) and n.func.attr == "append" \
+                    and len(n.args) == 1 and isinstance(n.args[0], ast.Name) and n.args[0].id == name:
+                return True
+    return False
+
+
+def _is_text_array(cls, fns, fn, name):
+    """`name` in function `fn` is the transformed column rendered as text: assigned once from <..>.astype(str), or the
+    element of a for-loop over a generator method of the class all of whose yields put <..>.astype(str) there"""
+    sc = _Scope(fn)
+    v = sc.value(name)
+    if v is not None and _is_astype_str(v):
+        return True
+    for n in _own_walk(fn):
+        if isinstance(n, ast.For) and isinstance(n.target, ast.Tuple):
+            idx = [i for i, e in enumerate(n.target.elts) if isinstance(e, ast.Name) and e.id == name]
+            it = n.iter
+            if len(idx) == 1 and isinstance(it, ast.Call) and isinstance(it.func, ast.Attribute) \
+                    and isinstance(it.func.value, ast.Name) and it.func.value.id == "self":
+                gens = [g for g in fns if g.name == it.func.attr]
+                if len(gens) != 1:
+                    return False
+                ys = [y for y in ast.walk(gens[0]) if isinstance(y, ast.Yield)]
+                return bool(ys) and all(isinstance(y.value, ast.Tuple) and len(y.value.elts) == len(n.target.elts)
+                                        and _is_astype_str(y.value.elts[idx[0]]) for y in ys)
+    return False
+
+
+def _check_guard(cls, fns, fn, boolop, arr):
+    """the conjunction must be what decides the emission, and its statistics must be those of the text column:
+    either it is the test of the `if` that stores the array, or it is what a predicate method returns and that
+    predicate, applied to the array, is the test of the `if` that stores it"""
+    if arr is None:
+        raise Refuse("keep rule: cannot name the array whose statistics are tested")
+    for n in _own_walk(fn):
+        if isinstance(n, ast.If) and n.test is boolop:
+            if not _stores(n.body, arr):
+                raise Refuse("keep rule: the guarded statement does not store the tested array %r" % arr)
+            if not _is_text_array(cls, fns, fn, arr):
+                raise Refuse("keep rule: the tested array %r is not <transformed>.astype(str)" % arr)
+            return
+    # predicate form:  def M(self, arr): ... return [bool(] <conjunction> [)]
+    rets = [n for n in _own_walk(fn) if isinstance(n, ast.Return)]
+    ok_ret = False
+    for r in rets:
+        v = r.value
+        if _is_call(v, "bool") and len(v.args) == 1 and not v.keywords:
+            v = v.args[0]
+        if v is boolop:
+            ok_ret = True
+    params = [a.arg for a in fn.args.args]
+    if not ok_ret or len(rets) != 1 or arr not in params:
+        raise Refuse("keep rule: the conjunction is neither the guard of the storing `if` nor the result of a predicate "
+                     "on the array")
+    pos = params.index(arr) - (1 if params and params[0] in ("self", "cls") else 0)
+    sites = []
+    for g in fns:
+        for n in _own_walk(g):
+            if isinstance(n, ast.Call) and isinstance(n.func, ast.Attribute) and n.func.attr == fn.name \
+                    and isinstance(n.func.value, ast.Name) and n.func.value.id in ("self", "cls", cls.name):
+                sites.append((g, n))
+    if len(sites) != 1:
+        raise Refuse("keep rule: predicate %s must be called exactly once in the class, found %d calls" % (fn.name, len(sites)))
+    g, call = sites[0]
+    if call.keywords or pos >= len(call.args) or not isinstance(call.args[pos], ast.Name):
+        raise Refuse("keep rule: cannot read the argument of %s" % fn.name)
+    arg = call.args[pos].id
+    for n in _own_walk(g):
+        if isinstance(n, ast.If) and n.test is call:
+            if not _stores(n.body, arg):
+                raise Refuse("keep rule: the statement guarded by %s does not store its argument %r" % (fn.name, arg))
+            if not _is_text_array(cls, fns, g, arg):
+                raise Refuse("keep rule: the argument %r of %s is not <transformed>.astype(str)" % (arg, fn.name))
+            return
+    raise Refuse("keep rule: the call of %s is not the test of an `if`" % fn.name)
+
+
 def extract_constants(src):
     """keep/drop rule, numeric parse and preset separator of class FeatureTransformerGeneric.
     Every item is searched in all methods of the class and must be found exactly once (else Refuse)."""
@@ -539,11 +629,13 @@ def extract_constants(src):
                     nan_lit = q[2]
             if ok and set(rule) == {"distinct", "majority", "nanshare"} \
                     and all(_same_arr(x, y) for x in arrs for y in arrs):
-                found.append((rule, nan_lit))
+                names = sorted({x for x in arrs if x != ANY})
+                found.append((rule, nan_lit, fn, n, names[0] if len(names) == 1 else None))
     if len(found) != 1:
         raise Refuse("keep rule: expected exactly one conjunction `distinct <op> k and majority share <op> k and nan share "
                      "<op> k` over one rendered array in class %s, found %d" % (cls.name, len(found)))
-    rule, nan_lit = found[0]
+    rule, nan_lit, rule_fn, rule_node, rule_arr = found[0]
+    _check_guard(cls, fns, rule_fn, rule_node, rule_arr)
 
     # get_vals: exactly one <s>.replace('<c>', '') and exactly one `float(x)` / `<number>` choice on emptiness of x
     reps = [n for n in ast.walk(gv) if isinstance(n, ast.Call) and isinstance(n.func, ast.Attribute) and n.func.attr == "replace"]
@@ -662,6 +754,11 @@ def presets_text(res):
     L.append("(* the presets translated here, under the names of the vault's registry _tr_global_namespace *)")
     L.append("Definition registry : list (str * list (str * expr)) := [")
     L.append(";\n".join("  (%s (* %s *), %s)" % (coq_str(p), p, COQ_TABLE[p]) for p in PRESETS))
+    L.append("].")
+    L.append("")
+    L.append("(* all keys of the vault's registry; the presets beyond the three above are not modelled (outside C12) *)")
+    L.append("Definition vault_registry_keys : list str := [")
+    L.append(";\n".join("  %s (* %s *)" % (coq_str(k), coq_comment(k)) for k in res["registry_keys"]))
     L.append("].")
     L.append("")
     L.append("(* fw_transformers.resolution_range / greater_than_range *)")
